@@ -1852,6 +1852,12 @@ def _evalb(e, b, env, u, src_ok):
         val = {'-': -x, '~': ~x, '!': int(not x)}[e['op']]
     else:
         return None
+    # the result of an arithmetic operator has the operator's own type: unsigned arithmetic wraps around
+    # ((raw - '0') <= 9u is false for every byte below '0')
+    if k in ('bin', 'un') and e.get('op') not in CMP_OPS and e.get('op') != '!' and ('ty0' in e or 'ty' in e):
+        t0 = u.ty(e.get('ty0', e.get('ty')))
+        if t0.get('c') == 'int' and t0.get('bits') and t0.get('unsigned'):
+            val &= (1 << t0['bits']) - 1
     # explicit casts on the way out
     c = e0
     chain = []
